@@ -415,3 +415,30 @@ func exprString(e Expr) string {
 	}
 	return "?"
 }
+
+// exprChildren: the direct sub-expressions of e.
+func exprChildren(e Expr) []Expr {
+	switch x := e.(type) {
+	case *EBin:
+		return []Expr{x.L, x.R}
+	case *EUn:
+		return []Expr{x.X}
+	case *ECall:
+		return x.Args
+	case *ESel:
+		return []Expr{x.X}
+	case *EIndex:
+		return []Expr{x.X, x.I}
+	case *ESlice:
+		var out []Expr
+		for _, c := range []Expr{x.X, x.Lo, x.Hi} {
+			if c != nil {
+				out = append(out, c)
+			}
+		}
+		return out
+	case *EQuant:
+		return []Expr{x.Body}
+	}
+	return nil
+}
